@@ -14,7 +14,7 @@ BOOL_OPTS = ["retain_names", "retain_coefficients", "sort_graded", "sort_reverse
              "display_inverse", "force_number_suffix"]
 
 OPS = ["construct", "add", "sub_self", "mul", "pow", "derivative", "gradient", "call_num", "call_partial", "call_staged",
-       "call_staged_none", "hessian", "divmod", "getitem",
+       "call_staged_none", "hessian", "divmod", "divmod_quotient", "divmod_remainder", "derivative2", "derivative_positions", "getitem",
        "align", "pickle", "sum", "concatenate", "where", "astype", "isconstant_tonumpy", "equal", "clean"]
 
 
@@ -26,7 +26,7 @@ def gen(tier, rng):
             opts["display_exponent"] = rng.choice(["^", "**"])
             opts["display_multiply"] = rng.choice([" ", "*"])
         op = rng.choice(OPS)
-        if op == "divmod":
+        if op.startswith("divmod"):
             # C15's quantifier: division is checked under the default retain options only
             opts["retain_names"], opts["retain_coefficients"] = True, False
         yield {"op": op, "opts": opts,
@@ -74,6 +74,24 @@ def run_op(op, a, b, numpoly):
     if op == "divmod":
         q, r = numpoly.poly_divmod(a * b + 1, b + 2)
         return q * (b + 2) + r
+    if op in ("divmod_quotient", "divmod_remainder"):
+        # quotient and remainder themselves (not only the identity) must not depend on the sort/display options
+        x0 = numpoly.variable(2)[0]
+        q, r = numpoly.poly_divmod(a * a + a * b + b * b + 3, a + b + x0)
+        return q if op == "divmod_quotient" else r
+    if op == "derivative2":
+        # two successive variables, designated by name; only indeterminates that really occur (an option-independent
+        # set: which names a polynomial carries beyond those legitimately depends on retain_names)
+        p = a * b * b + a
+        used = [n for n, col in zip(p.names, numpy.asarray(p.exponents).T)
+                if any(e and numpy.any(c) for e, c in zip(col, p.coefficients))]
+        return numpoly.derivative(p, *(used[:1] + used[-1:]))
+    if op == "derivative_positions":
+        # every indeterminate q0, q1, q2 occurs, so positions mean the same variable under every option setting;
+        # the first derivative eliminates q0 from some terms, the positions must still refer to the original tuple
+        x = numpoly.variable(3)
+        p = a * b + 2 * x[0] + x[0] * x[1] ** 3 * x[2] + 5 * x[1] ** 2 * x[2] ** 2
+        return numpoly.derivative(p, 0, 1)
     if op == "getitem":
         return a[..., None][..., 0]
     if op == "align":
